@@ -36,7 +36,7 @@ def run(ctx):
     rnd = random.Random(ctx.seed)
     behs = []
     # exhaustive small configurations, one witness per coverage class
-    for cfg, part, take in (("MC_refs_quick.cfg", "quick", 140), ("MC_refs_fast.cfg", "fast", 110)):
+    for cfg, part, take in (("MC_refs_quick.cfg", "quick", 70), ("MC_refs_fast.cfg", "fast", 90), ("MC_refs_ckpt.cfg", "ckptmc", 120)):
         if not ctx.want(part):
             continue
         mc = ctx.tlc("db", "Refs", cfg, workers=1, timeout=3000)
